@@ -8,6 +8,7 @@ package main
 import (
 	"bytes"
 	"crypto/sha256"
+	"encoding/binary"
 	"encoding/hex"
 	"encoding/json"
 	"fmt"
@@ -36,9 +37,40 @@ const (
 	opRm       = "rm"       // remove-last (VerifGroupRemoveLast)
 	opRm2      = "rm2"      // fork switch to the ancestor two below the tip (production removeFromCommonAncestor)
 	opRestart  = "restart"  // VerifGroupReinit: re-run group chain initialisation over the same store
+
+	// ID dimension of add-group: the group is otherwise valid (PreGroup = current last,
+	// Parent = genesis) but its Id is byte-identical to something that lives (or will live)
+	// in the same key space of the group store, or is degenerate.
+	opIdH0     = "id-h0"      // Id = height-index key of height 0
+	opIdHLast  = "id-hlast"   // Id = height-index key of the last existing height (count-1)
+	opIdHNext  = "id-hnext"   // Id = height-index key of the next height (count), the one this add writes
+	opIdHNext1 = "id-hnext1"  // Id = height-index key of count+1, written by the following add
+	opIdKLast  = "id-klast"   // Id = the literal last-group pointer key
+	opIdKCount = "id-kcount"  // Id = the literal count key
+	opIdGen    = "id-genesis" // Id = id of the genesis group
+	opIdEmpty  = "id-empty"   // empty Id
+	opId1Byte  = "id-1byte"   // 1-byte Id
 )
 
-var alphabet = []string{opAdd0, opAdd1, opWrongPre, opNoParent, opDup, opRm, opRm2, opRestart}
+var alphabet = []string{opAdd0, opAdd1, opWrongPre, opNoParent, opDup, opRm, opRm2, opRestart,
+	opIdH0, opIdHLast, opIdHNext, opIdHNext1, opIdKLast, opIdKCount, opIdGen, opIdEmpty, opId1Byte}
+
+// Store layout the ID dimension aims at.  These are the repository's constants
+// (core.lastGroupKey, core.groupCountKey, core.generateKey = 8-byte big endian); they are
+// not exported, so the check states them here and verifies them against the real store
+// right after boot (verifyLayout): a different layout stops the run (exit 2, no verdict).
+var (
+	keyLast  = []byte("gcurrent")
+	keyCount = []byte("gcount")
+)
+
+func heightKey(h uint64) []byte {
+	b := make([]byte, 8)
+	binary.BigEndian.PutUint64(b, h)
+	return b
+}
+
+func isOddId(op string) bool { return strings.HasPrefix(op, "id-") }
 
 func opIndex(name string) int {
 	for i, a := range alphabet {
@@ -61,6 +93,14 @@ func opClass(op string, accepted bool) string {
 			return "add"
 		}
 		return "rejected-add"
+	}
+	if isOddId(op) {
+		if accepted {
+			return "add-" + op
+		}
+		return "rejected-add"
+	}
+	switch op {
 	case opRm, opRm2:
 		return "remove"
 	}
@@ -72,6 +112,11 @@ func opClass(op string, accepted bool) string {
 // refGroups is the reference model: the list of groups, element 0 = genesis group.
 type refGroups struct {
 	list []*types.Group
+	// oddUsed: an addition of the ID dimension was accepted earlier in this history (at
+	// most one per history is explored); oddListed: its kind while it is still listed.
+	oddUsed   bool
+	oddListed string
+	oddAt     int
 }
 
 func (m *refGroups) last() *types.Group { return m.list[len(m.list)-1] }
@@ -82,8 +127,21 @@ func (m *refGroups) enabled(op string) bool {
 		return len(m.list) >= 2 // the fork switch never removes the genesis group
 	case opRm2:
 		return len(m.list) >= 3
+	case opIdHLast:
+		return !m.oddUsed && len(m.list) >= 2 // with one group it is id-h0
+	}
+	if isOddId(op) {
+		return !m.oddUsed
 	}
 	return true
+}
+
+// shrink drops the last n elements of the list.
+func (m *refGroups) shrink(n int) {
+	m.list = m.list[:len(m.list)-n]
+	if m.oddListed != "" && m.oddAt >= len(m.list) {
+		m.oddListed = ""
+	}
 }
 
 func (m *refGroups) ids() []string {
@@ -130,6 +188,24 @@ func (m *refGroups) build(op string) *types.Group {
 		hd.Parent = gid(0xEF, 6)
 	case opDup:
 		g.Id = append([]byte{}, m.last().Id...)
+	case opIdH0:
+		g.Id = heightKey(0)
+	case opIdHLast:
+		g.Id = heightKey(uint64(h - 1))
+	case opIdHNext:
+		g.Id = heightKey(uint64(h))
+	case opIdHNext1:
+		g.Id = heightKey(uint64(h + 1))
+	case opIdKLast:
+		g.Id = append([]byte{}, keyLast...)
+	case opIdKCount:
+		g.Id = append([]byte{}, keyCount...)
+	case opIdGen:
+		g.Id = append([]byte{}, m.list[0].Id...)
+	case opIdEmpty:
+		g.Id = []byte{}
+	case opId1Byte:
+		g.Id = []byte{0x01}
 	default:
 		panic("build: not an add op: " + op)
 	}
@@ -155,6 +231,8 @@ type stepResult struct {
 	// Forbidden is set when the implementation accepted an addition that cannot keep
 	// the list a gap-free linked list with unique ids.
 	Forbidden string `json:"forbidden,omitempty"`
+	// OddListed: kind of the ID-dimension group that was listed before or after this op.
+	OddListed string `json:"odd_listed,omitempty"`
 }
 
 // applyOp executes op on the real group chain and steps the model.  The model takes the
@@ -162,9 +240,13 @@ type stepResult struct {
 // say which additions must be refused) except that accepting a wrong predecessor or a
 // listed id is reported: no list can satisfy the statement afterwards.
 func applyOp(m *refGroups, op string) stepResult {
-	r := stepResult{Op: op}
-	switch op {
-	case opAdd0, opAdd1, opWrongPre, opNoParent, opDup:
+	r := stepResult{Op: op, OddListed: m.oddListed}
+	kind := op
+	if isOddId(op) {
+		kind = "add"
+	}
+	switch kind {
+	case "add", opAdd0, opAdd1, opWrongPre, opNoParent, opDup:
 		g := m.build(op)
 		var err error
 		p, v, site := fw.Try(func() { err = core.GetGroupChain().AddGroup(g) })
@@ -184,8 +266,12 @@ func applyOp(m *refGroups, op string) stepResult {
 		if op == opWrongPre {
 			r.Forbidden = "add-accepted-with-wrong-pregroup"
 		}
-		if op == opDup {
+		if op == opDup || op == opIdGen {
 			r.Forbidden = "add-accepted-with-listed-id"
+		}
+		if isOddId(op) {
+			m.oddUsed, m.oddListed, m.oddAt = true, op, len(m.list)-1
+			r.OddListed = op
 		}
 	case opRm:
 		var ok bool
@@ -196,7 +282,7 @@ func applyOp(m *refGroups, op string) stepResult {
 		}
 		r.Accepted = ok
 		if ok {
-			m.list = m.list[:len(m.list)-1]
+			m.shrink(1)
 		}
 	case opRm2:
 		anc := m.list[len(m.list)-3]
@@ -215,7 +301,7 @@ func applyOp(m *refGroups, op string) stepResult {
 			return r
 		}
 		r.Accepted = true
-		m.list = m.list[:len(m.list)-2]
+		m.shrink(2)
 	case opRestart:
 		p, v, site := fw.Try(func() { core.VerifGroupReinit() })
 		if p {
@@ -447,6 +533,9 @@ func stateKey(m *refGroups) string {
 	h := sha256.New()
 	h.Write([]byte(implState()))
 	h.Write([]byte(strings.Join(m.ids(), ",")))
+	if m.oddUsed {
+		h.Write([]byte("|odd-id budget used"))
+	}
 	return string(h.Sum(nil)[:16])
 }
 
@@ -459,12 +548,53 @@ var (
 	pristineCount uint64
 	pristineLast  []byte // JSON of the last group right after boot
 	genesisList   []*types.Group
+	layoutErr     error // the post-boot store does not have the layout the ID dimension assumes
 )
+
+// verifyLayout compares the post-boot store with the assumed layout: one record per
+// genesis group, one height key per genesis group, the last pointer, the count, nothing else.
+func verifyLayout() error {
+	n := len(genesisList)
+	want := map[string][]byte{
+		string(keyLast):  genesisList[n-1].Id,
+		string(keyCount): heightKey(uint64(n)), // the count is stored as 8-byte big endian as well
+	}
+	for i, g := range genesisList {
+		want[string(heightKey(uint64(i)))] = g.Id
+	}
+	for k, v := range want {
+		if got, ok := pristineKV[k]; !ok || !bytes.Equal(got, v) {
+			return fmt.Errorf("group store layout: key %q holds %x after boot, assumed %x", k, got, v)
+		}
+	}
+	for k := range pristineKV {
+		if _, ok := want[k]; ok {
+			continue
+		}
+		isRecord := false
+		for _, g := range genesisList {
+			isRecord = isRecord || k == string(g.Id)
+		}
+		if !isRecord {
+			return fmt.Errorf("group store layout: unknown bookkeeping key %q after boot (ID dimension of the check needs an update)", k)
+		}
+	}
+	return nil
+}
+
+// rowId maps the hash column of a side index row back to the id the repository's
+// DeleteGroup / SelectGroup need (they apply common.ToHex, which prints the empty id as "0x0").
+func rowId(hexid string) []byte {
+	if hexid == common.ToHex(nil) {
+		return []byte{}
+	}
+	return common.FromHex(hexid)
+}
 
 func sideRows() map[string][3]uint64 {
 	out := map[string][3]uint64{}
 	for _, hexid := range mysql.SelectValidGroups(0) {
-		w, d, h := mysql.SelectGroup(common.FromHex(hexid))
+		w, d, h := mysql.SelectGroup(rowId(hexid))
 		out[hexid] = [3]uint64{w, d, h}
 	}
 	return out
@@ -492,6 +622,7 @@ func capturePristine() error {
 	for i := range keys {
 		pristineKV[string(keys[i])] = vals[i]
 	}
+	layoutErr = verifyLayout()
 	pristineRows = sideRows()
 	if uint64(len(pristineRows)) != mysql.CountGroups() {
 		return fmt.Errorf("side index rows cannot be enumerated (%d of %d)", len(pristineRows), mysql.CountGroups())
@@ -518,7 +649,7 @@ func resetByReinit() error {
 		}
 	}
 	for hexid := range sideRows() {
-		if err := mysql.DeleteGroup(common.FromHex(hexid)); err != nil {
+		if err := mysql.DeleteGroup(rowId(hexid)); err != nil {
 			return err
 		}
 	}
@@ -567,7 +698,7 @@ func resetToPristine() error {
 	rows := sideRows()
 	for hexid, r := range rows {
 		if pr, ok := pristineRows[hexid]; !ok || pr != r {
-			if err := mysql.DeleteGroup(common.FromHex(hexid)); err != nil {
+			if err := mysql.DeleteGroup(rowId(hexid)); err != nil {
 				return err
 			}
 			delete(rows, hexid)
@@ -618,6 +749,7 @@ type histResult struct {
 	Fails     []failure // oracle result after the last op
 	AllFails  [][]failure
 	ListLen   int
+	OddUsed   bool // an ID-dimension addition was accepted in this history
 	Dead      bool // an op panicked: the process-global chain object may be unusable
 	ResetErr  error
 }
@@ -656,6 +788,7 @@ func runHistory(hist []string, checkFrom int) *histResult {
 		}
 	}
 	r.ListLen = len(m.list)
+	r.OddUsed = m.oddUsed
 	if !r.Dead {
 		r.Key = stateKey(m)
 		r.Fails = r.AllFails[len(hist)]
@@ -680,8 +813,14 @@ func findingsOfStep(hist []string, r *histResult, i int, before uint32) []findin
 	var out []finding
 	s := r.Steps[i]
 	pre := strings.Join(hist[:i], ",")
+	// consequences of a listed ID-dimension group carry its kind (the add itself has it in
+	// its op class)
+	tag := ""
+	if s.OddListed != "" && !isOddId(s.Op) {
+		tag = ":with-" + s.OddListed + "-listed"
+	}
 	if s.Panic != "" {
-		out = append(out, finding{"C19:panic:" + s.Panic, "history",
+		out = append(out, finding{"C19:panic:" + s.Panic + tag, "history",
 			fmt.Sprintf("after [%s] op %s panicked: %s", pre, s.Op, s.Err)})
 		return out
 	}
@@ -695,7 +834,7 @@ func findingsOfStep(hist []string, r *histResult, i int, before uint32) []findin
 			continue
 		}
 		seen[f.Clause] = true
-		out = append(out, finding{"C19:" + clauseName[f.Clause] + "-after-" + opClass(s.Op, s.Accepted), "history",
+		out = append(out, finding{"C19:" + clauseName[f.Clause] + "-after-" + opClass(s.Op, s.Accepted) + tag, "history",
 			fmt.Sprintf("after [%s] then %s: %s", pre, s.Op, f.Msg)})
 	}
 	return out
